@@ -180,6 +180,16 @@ MUTANTS = [
     M("benign-known-shnums-explicit-loop", PUB,
       "            shares.extend([x.shnum for x in writers if x.server == server])\n",
       "            for x in writers:\n                if x.server == server:\n                    shares.append(x.shnum)\n", None),
+    M("publish-writer-without-server-attr", PUB,
+      "            self.writers.add(shnum, writer)\n            writer.server = server\n"
+      "            known_shares = self._servermap.get_known_shares()\n            if (server, shnum) in known_shares:\n",
+      "            self.writers.add(shnum, writer)\n"
+      "            known_shares = self._servermap.get_known_shares()\n            if (server, shnum) in known_shares:\n", "C12.11"),
+    M("benign-update-server-attr-set-first", PUB,
+      "            self.writers.add(shnum, writer)\n            writer.server = server\n"
+      "            known_shares = self._servermap.get_known_shares()\n            assert (server, shnum) in known_shares\n",
+      "            writer.server = server\n            self.writers.add(shnum, writer)\n"
+      "            known_shares = self._servermap.get_known_shares()\n            assert (server, shnum) in known_shares\n", None),
     # ---- C12.12 every answer is awaited
     M("writer-deferred-not-collected", PUB, "                ds.append(d)\n", "", "C12.12"),
     M("finish-fires-on-first-answer", PUB,
